@@ -122,6 +122,16 @@ def annotated_laws():
             s[0].append(7)
         if A.s != norm(a):
             fails.append((a, "mutating .s result changed the state"))
+        # the constructor's argument stays the caller's: editing its per-mode lists (or the outer list) afterwards does not reach the state,
+        # whatever the number of labels on a mode (0, 1 or more)
+        src = [list(m) for m in a]
+        A2 = AnnotatedState(src)
+        h2, str2 = hash(A2), str(A2)
+        for m in src:
+            m.append(9)
+        src.append([3])
+        if A2.s != norm(a) or hash(A2) != h2 or str(A2) != str2 or A2 != AnnotatedState([list(m) for m in a]):
+            fails.append((a, "editing the nested list passed to the constructor changed the state afterwards"))
         # every other way the API hands out per-mode label lists: item access, iteration, slices
         h0 = hash(A)
         for i in range(len(a)):
